@@ -4,6 +4,7 @@
 import PyElf.Spec.Registry
 import PyElf.Spec.RegistryDecisions
 import PyElf.Proofs.Registry
+import PyElf.Proofs.RegistryMarkers
 import PyElf.Gen.Tables
 import PyElf.Gen.Extra_C17
 namespace PyElf.Props.C17
@@ -34,6 +35,28 @@ def TablesRelated (k1 : Nat) (id1 : String) (k2 : Nat) (id2 : String)
     (P : List (Nat × Int) → List (Nat × Int) → Prop) : Prop :=
   ∃ e1 M e2 T, findTable k1 Gen.tableIndex = some (id1, e1, M) ∧ findTable k2 Gen.tableIndex = some (id2, e2, T) ∧ P M T
 
+/-- the regenerated ENUM table with this id exists, has a regenerated marker-flag list of its length, and obeys the
+    range-marker rule: a code is reported under a range marker only if every name the table gives it is one -/
+def TableNoMarkerShadow (key : Nat) (id : String) : Prop :=
+  ∃ e T ms M, findTable key Gen.tableIndex = some (id, e, T) ∧ findMarkers key Gen.markerIndex = some ms ∧
+    attachMarkers T ms = some M ∧ NoMarkerShadow M
+
+/-- evaluated form: the check of table `key` against ITS flag list (false when there is none) -/
+def markerCheckB (key : Nat) (T : List (Nat × Int)) : Bool :=
+  match findMarkers key Gen.markerIndex with
+  | some ms => noMarkerShadowB T ms
+  | none => false
+
+theorem markerCheckB_elim {key : Nat} {T : List (Nat × Int)} (h : markerCheckB key T = true) :
+    ∃ ms M, findMarkers key Gen.markerIndex = some ms ∧ attachMarkers T ms = some M ∧ NoMarkerShadow M := by
+  unfold markerCheckB at h
+  cases hf : findMarkers key Gen.markerIndex with
+  | none => rw [hf] at h; simp at h
+  | some ms =>
+    rw [hf] at h
+    obtain ⟨M, ha, hM⟩ := noMarkerShadowB_elim h
+    exact ⟨ms, M, rfl, ha, hM⟩
+
 def tableCheckB (key : Nat) (id : String) (f : List (Nat × Int) → Bool) : Bool :=
   match findTable key Gen.tableIndex with
   | some (id', _, T) => (id' == id) && f T
@@ -59,6 +82,12 @@ theorem tableDecodesStd_of {key : Nat} {id : String}
     (h : tableCheckB key id (fun T => decodesStdB Registry.tree legacyAliases T T) = true) : TableDecodesStd key id := by
   obtain ⟨e, T, heq, hf⟩ := tableCheckB_elim h
   exact ⟨e, T, heq, decodesStdB_sound registry_ordered hf⟩
+
+theorem tableNoMarkerShadow_of {key : Nat} {id : String}
+    (h : tableCheckB key id (markerCheckB key) = true) : TableNoMarkerShadow key id := by
+  obtain ⟨e, T, heq, hf⟩ := tableCheckB_elim h
+  obtain ⟨ms, M, h1, h2, h3⟩ := markerCheckB_elim hf
+  exact ⟨e, T, ms, M, heq, h1, h2, h3⟩
 
 theorem tablesRelated_of {k1 k2 : Nat} {id1 id2 : String} {P : List (Nat × Int) → List (Nat × Int) → Prop}
     (f : List (Nat × Int) → List (Nat × Int) → Bool) (hf : ∀ M T, f M T = true → P M T)
